@@ -116,7 +116,7 @@ PLANS["C05"] = {
         "quick": [leg("rel", 16), leg("dbg", 16), leg("miri", 8, "raw_exh", of=512, budget=600), leg("miri", 6, "int", budget=1200, scale=10),
                    leg("fuzz", 3, "raw", runs=15000), leg("fuzz", 3, "int", runs=15000)],
         "thorough": [leg("rel", 16), leg("dbg", 16), leg("rel-nobmi", 8), leg("miri", 12, "raw_exh", of=128, budget=4000), leg("miri", 8, "int_exh", of=128, budget=4000), leg("miri", 12, "int", budget=8000, scale=10), leg("miri", 6, "raw", budget=8000, scale=10),
-                      leg("fuzz", 8, "raw", runs=400000), leg("fuzz", 8, "int", runs=400000), leg("fuzz-dbg", 4, "raw", runs=300000), leg("fuzz-dbg", 4, "int", runs=300000)],
+                      leg("fuzz", 6, "raw", runs=80000), leg("fuzz", 6, "int", runs=80000), leg("fuzz-dbg", 3, "raw", runs=80000), leg("fuzz-dbg", 3, "int", runs=80000)],
     },
     "require": {
         "quick": [("probe", "tail_cleared", 1), ("probe", "write_int_straddle", 1), ("build", "dbg", "overflow_checks", True)],
@@ -139,7 +139,7 @@ PLANS["C02"] = {
         "quick": [leg("rel", 16), leg("dbg", 16), leg("miri", 6, "small", of=512, budget=3000), leg("miri-wrap", 6, "widths", of=12, scale=150, budget=2500),
                    leg("fuzz", 2, "widths", runs=1000)],
         "thorough": [leg("rel", 16), leg("dbg", 16), leg("rel-nobmi", 16), leg("miri", 12, "small", of=128, budget=20000), leg("miri-wrap", 12, "widths", of=12, scale=60, budget=15000),
-                      leg("fuzz", 8, "widths", runs=30000), leg("fuzz-dbg", 4, "widths", runs=30000)],
+                      leg("fuzz", 8, "widths", runs=8000), leg("fuzz-dbg", 4, "widths", runs=8000)],
     },
     "require": {
         "quick": [("set_size", "sparse_low_width", 63), ("probe", "sparse_fzr_binary", 1), ("probe", "sparse_fzr_linear", 1), ("counter", "widths.on_target", 63), ("counter", "wide.one_side_cases", 1), ("counter", "wide.zero_side_cases", 1)],
@@ -184,7 +184,7 @@ PLANS["C15"] = {
         "quick": [leg("rel", 16), leg("dbg", 16), leg("miri", 8, "small", of=256, budget=3000),
                    leg("fuzz", 2, "gen", runs=2500)],
         "thorough": [leg("rel", 16), leg("dbg", 16), leg("miri", 12, "small", of=64, budget=20000), leg("miri-wrap", 8, "from_iter", of=64, budget=20000),
-                      leg("fuzz", 8, "gen", runs=60000), leg("fuzz-dbg", 4, "gen", runs=60000)],
+                      leg("fuzz", 8, "gen", runs=20000), leg("fuzz-dbg", 4, "gen", runs=20000)],
     },
     "require": {"quick": [], "thorough": []},
     "level_text": ("exploration: multiset sparse vectors are built exhaustively at small scope and by directed generation, and every present-value query, both set-bit iterator directions and both bit "
@@ -204,7 +204,7 @@ PLANS["C04"] = {
         "quick": [leg("rel", 16), leg("dbg", 16), leg("miri", 6, "small", of=512, budget=3000),
                    leg("fuzz", 2, "gen", runs=1500)],
         "thorough": [leg("rel", 16), leg("dbg", 16), leg("rel-nobmi", 16), leg("miri", 12, "small", of=128, budget=20000),
-                      leg("fuzz", 8, "gen", runs=40000), leg("fuzz-dbg", 4, "gen", runs=40000)],
+                      leg("fuzz", 8, "gen", runs=12000), leg("fuzz-dbg", 4, "gen", runs=12000)],
     },
     "require": {"quick": [("counter", "big.model_long_superblocks_first_level_ones", 2), ("counter", "big.model_long_superblocks_first_level_zeros", 2)], "thorough": [("counter", "big.model_long_superblocks_first_level_ones", 2), ("counter", "big.model_long_superblocks_first_level_zeros", 2)]},
     "level_text": ("exploration: wavelet matrices built from exhaustive small vectors and shaped generated vectors are queried through every Vector/Access/VectorIndex method and the core mapping while a plain "
@@ -243,7 +243,7 @@ PLANS["C10"] = {
         "quick": [leg("dbg", 16, "exh", of=48), leg("rel", 16, "exh", weight=3), leg("rel", 16, "rand"), leg("dbg", 16, "rand"), leg("rel-nobmi", 8, "rand"), leg("miri-wrap", 8, "exh", of=127, scale=2, budget=4000),
                    leg("fuzz", 4, "rand", runs=1200)],
         "thorough": [leg("rel", 16, "exh", weight=3), leg("dbg", 16, "exh", scale=1), leg("rel", 16, "rand"), leg("dbg", 16, "rand"), leg("rel-nobmi", 16, "rand"), leg("miri-wrap", 16, "exh", of=127, scale=2, budget=30000),
-                      leg("fuzz", 12, "rand", runs=40000), leg("fuzz-dbg", 4, "rand", runs=40000)],
+                      leg("fuzz", 12, "rand", runs=8000), leg("fuzz-dbg", 4, "rand", runs=8000)],
     },
     "require": {"quick": [("probe", "one_iter_next_skip", 1), ("probe", "one_iter_nth_skip", 1), ("probe", "one_iter_back_skip", 1)]},
     "exhaustive": True,
@@ -282,7 +282,7 @@ PLANS["C16"] = {
         "quick": [leg("dbg", 16, "sparse_exh", of=64), leg("rel", 16, weight=3), leg("dbg", 16, "sparse_rand"), leg("dbg", 16, "rl_rand"), leg("dbg", 16, "rl_exh"), leg("miri", 6, "rl_exh", of=4000, budget=2500), leg("miri", 6, "sparse_exh", of=40000, budget=2500),
                    leg("fuzz", 3, "sparse_rand", runs=3000), leg("fuzz", 3, "rl_rand", runs=1500)],
         "thorough": [leg("dbg", 16, "sparse_exh", of=16), leg("rel", 16, weight=3), leg("dbg", 16, "sparse_rand"), leg("dbg", 16, "rl_rand"), leg("dbg", 16, "rl_exh"), leg("miri", 12, "rl_exh", of=40000, budget=15000), leg("miri", 12, "sparse_exh", of=400000, budget=15000),
-                      leg("fuzz", 8, "sparse_rand", runs=60000), leg("fuzz", 8, "rl_rand", runs=30000), leg("fuzz-dbg", 4, "sparse_rand", runs=60000), leg("fuzz-dbg", 4, "rl_rand", runs=30000)],
+                      leg("fuzz", 8, "sparse_rand", runs=15000), leg("fuzz", 8, "rl_rand", runs=8000), leg("fuzz-dbg", 4, "sparse_rand", runs=15000), leg("fuzz-dbg", 4, "rl_rand", runs=8000)],
     },
     "require": {"quick": [], "thorough": []},
     "exhaustive": True,
@@ -320,7 +320,7 @@ PLANS["C12"] = {
         "quick": [leg("rel", 16), leg("dbg", 16),
                    leg("fuzz", 2, "raw", runs=6000), leg("fuzz", 2, "int", runs=6000)],
         "thorough": [leg("rel", 16), leg("dbg", 16), leg("asan", 8, "raw"),
-                      leg("fuzz", 6, "raw", runs=200000), leg("fuzz", 6, "int", runs=200000), leg("fuzz-dbg", 3, "raw", runs=100000), leg("fuzz-dbg", 3, "int", runs=100000)],
+                      leg("fuzz", 6, "raw", runs=60000), leg("fuzz", 6, "int", runs=60000), leg("fuzz-dbg", 3, "raw", runs=40000), leg("fuzz-dbg", 3, "int", runs=40000)],
     },
     "require": {"quick": [("probe", "flush_safe_carry", 1), ("probe", "flush_safe_exact", 1), ("probe", "flush_final_empty", 1), ("probe", "flush_final_nonempty", 1)]},
     "level_text": "exploration: writer configurations aimed at every flush regime run against real files; the file left behind is compared byte for byte with the in-memory serialization; flush-regime probes must all fire",
@@ -477,7 +477,7 @@ PLANS["C08"] = {
                      leg("asan", 4, driver="c04"), leg("asan", 4, driver="c05"), leg("asan", 4, driver="c09"), leg("asan", 4, driver="c15"), leg("asan", 4, driver="c19"),
                      leg("bounds", 8, driver="c10", part="rand"), leg("bounds", 8, driver="c01"), leg("bounds", 8, driver="c02"), leg("bounds", 8, driver="c03"), leg("bounds", 4, driver="c09"),
                      leg("valgrind", 8, driver="c09", scale=8), leg("valgrind", 8, driver="c10", part="rand", scale=8),
-                      leg("fuzz", 4, "raw", runs=300000), leg("fuzz", 4, "bv", runs=300000), leg("fuzz", 4, "sparse", runs=300000), leg("fuzz", 4, "rl", runs=300000), leg("fuzz", 4, "wm", runs=300000)],
+                      leg("fuzz", 4, "raw", runs=60000), leg("fuzz", 4, "bv", runs=60000), leg("fuzz", 4, "sparse", runs=60000), leg("fuzz", 4, "rl", runs=60000), leg("fuzz", 4, "wm", runs=60000)],
     },
     "require": {"quick": [("counter", "coverage.methods", 100), ("counter", "calls_panicked", 100), ("build", "bounds", "bounds", True), ("build", "rel", "overflow_checks", False),
                           ("build", "dbg", "overflow_checks", True), ("build", "rel-nobmi", "bmi2", False), ("build", "miri", "miri", True), ("build", "miri-wrap", "overflow_checks", False), ("probe", "mmap_new", 10)]},
